@@ -51,6 +51,12 @@ TIES = {
             "obtain_formers": ("DswModel.Tie.GzArith", ["tie_obtain_formers"]),
             "get_complete_accessor": ("DswModel.Tie.GzArith", ["tie_get_complete_accessor"]),
             "path_matching": ("DswModel.Tie.GzPath", ["tie_path_matching"]),
+            "obtain_vertices": ("DswModel.Tie.GzViews", ["tie_obtain_vertices"]),
+            "accessor_to_latter_map": ("DswModel.Tie.GzViews", ["tie_accessor_to_latter_map"]),
+            "remove_useless": ("DswModel.Tie.GzViews", ["tie_remove_useless"]),
+            "latter_map_to_accessor": ("DswModel.Tie.GzViews", ["tie_latter_map_to_accessor_plain", "tie_latter_map_to_accessor_trim"]),
+            "obtain_leaf_vertices": ("DswModel.Tie.GzViews", ["tie_obtain_leaf_vertices_acc", "tie_obtain_leaf_vertices_map",
+                                                               "tie_obtain_leaf_vertices_bad"]),
         },
         "extra_modules": [],
     },
@@ -61,7 +67,7 @@ TIES = {
             "decode": ("DswModel.Tie.SwDecode", ["tie_decode"]),
             "repair_dna": ("DswModel.Tie.SwRepair", ["tie_repair_dna"]),
         },
-        "extra_modules": ["DswModel.Tie.SwCorollaries"],
+        "extra_modules": ["DswModel.Tie.SwCorollaries", "DswModel.Tie.RepCorollaries"],
     },
 }
 
